@@ -25,19 +25,25 @@ def setup():
                 if "*** Errors" in p.stdout or p.returncode != 0:
                     print(p.stdout[-2000:])
                     return 2
+    from concurrent.futures import ThreadPoolExecutor
+    jobs = []
     for prof, ns in (("core", (1, 2, 3, 4)), ("cond", (1, 2, 3, 4)), ("iter", (1, 2, 3)), ("wild", (1, 2, 3)), ("plain", (1, 2, 3)),
                      ("case", (1, 2, 3)), ("lb", (1, 2, 3, 4)), ("ctxfill", (0,)), ("condctx", (0,)), ("wildshapes", (0,))):
         for n in ns:
-            pats(prof, n)
+            jobs.append((pats, (prof, n)))
     for sig, n in (("sig6", 2), ("sig6", 3), ("wide", 2), ("wide", 3), ("case4", 3), ("ab", 3)):
-        texts(sig, n)
+        jobs.append((texts, (sig, n)))
     for n in (1, 2, 3):
-        inject_export("core", n)
-    inject_export("ctxfill", 0)
-    common.export("expand_fixtures", "fixtures", 0)
-    common.export("templates_3", "templates", 3)
-    common.export("escapes_2", "escapes", 2)
-    common.export("sizefix", "sizefix", 0)
+        jobs.append((inject_export, ("core", n)))
+        jobs.append((common.export, ("spell_core_%d" % n, "spell", n, "core")))
+    jobs += [(inject_export, ("ctxfill", 0)), (common.export, ("expand_fixtures", "fixtures", 0)), (common.export, ("templates_3", "templates", 3)),
+             (common.export, ("escapes_2", "escapes", 2)), (common.export, ("sizefix", "sizefix", 0)), (common.export, ("spell_ctxfill_0", "spell", 0, "ctxfill")),
+             (common.export, ("spell_case_3", "spell", 3, "case")), (common.export, ("vocab_1", "vocab", 1)), (common.export, ("vocab_2", "vocab", 2)),
+             (common.export, ("amp", "amp", 0))]
+    with ThreadPoolExecutor(max_workers=8) as ex:
+        for f in [ex.submit(fn, *args) for fn, args in jobs]:
+            f.result()
+    common.build_harness("debug")
     print("setup ok")
     return 0
 
@@ -458,7 +464,7 @@ def c20(ctx):
     ctx.cov["mc_savelog_deep"] = dict(max_ops=maxops + (2 if ctx.quick else 1), distinct_states=r2.distinct, generated=r2.generated)
     # long random histories from TLC's simulator
     sim = tlc.run_tlc("MC_SaveLog", cfg=_write_cfg("MC_SaveLog_sim", cfg.replace("MaxOps = %d" % maxops, "MaxOps = 40").replace("VIEW view\n", "")),
-                      env=dict(VH_EMIT="1"), workers=1, simulate="num=%d" % (300 if ctx.quick else 5000), extra=("-depth", "40", "-seed", str(ctx.seed + 1)),
+                      env=dict(VH_EMIT="1"), workers=1, simulate="num=%d" % (2000 if ctx.quick else 20000), extra=("-depth", "40", "-seed", str(ctx.seed + 1)),
                       tag="MC_SaveLog_sim", deque=False, timeout=3600)
     lines = [h["h"] for h in sim.tagged("REPLAY")]
     longh = [h for i, h in enumerate(lines) if i + 1 == len(lines) or len(lines[i + 1]) <= len(h)]
@@ -470,7 +476,32 @@ def c20(ctx):
         hists = sample(ctx, hists, 400000)
     d = common.workdir("C20")
     tcfg = _write_cfg("TraceSaveLog", "SPECIFICATION TSpec\nCONSTANTS %s\nCHECK_DEADLOCK FALSE\nPOSTCONDITION Consumed\n" % consts)
-    for name, hs in (("state_graph", hists), ("simulated", longh)):
+    # seeded random histories from the driver (the validator is the same abstract model, so the sampler needs no trust):
+    # biased towards the shapes commits are about -- several alternatives, repeated writes of one slot, cut to an inner count, then pops
+    rnd = []
+    vals = [0, 1] if nslots == 2 else [0, 1, 2]
+    for _ in range(30000 if ctx.quick else 400000):
+        h, depth, xd, n, xds = [], 0, 0, 0, []   # xds: explicit-stack depth remembered by each alternative (it is restored on pop)
+        for _ in range(ctx.rng.randint(6, 24)):
+            x = ctx.rng.random()
+            if x < 0.30:
+                h.append(["save", ctx.rng.randrange(nslots), ctx.rng.choice(vals)])
+            elif x < 0.55 and depth < 3:
+                h.append(["push", 10 + n, n]); depth += 1; xds.append(xd)
+            elif x < 0.70 and depth > 0:
+                h.append(["pop", 0, 0]); depth -= 1; xd = xds.pop()
+            elif x < 0.85 and depth > 0:
+                k = ctx.rng.randint(0, depth)
+                h.append(["cut", k, 0]); depth = k; xds = xds[:k]
+            elif x < 0.93 and xd < 2:
+                h.append(["spush", ctx.rng.choice(vals), 0]); xd += 1
+            elif xd > 0:
+                h.append(["spop", 0, 0]); xd -= 1
+            else:
+                h.append(["save", ctx.rng.randrange(nslots), ctx.rng.choice(vals)])
+            n += 1
+        rnd.append(h)
+    for name, hs in (("state_graph", hists), ("simulated", longh), ("random", rnd)):
         hf = os.path.join(d, name + ".hists.ndjson")
         common.write_ndjson(hf, [{"h": h} for h in hs])
         prefix = os.path.join(d, name + ".sl")
